@@ -11,14 +11,14 @@ raising the Python exception class CPython raises on a wrong operand type) and m
 YAML value `d : Y` (any nesting, any scalar keys) — no `inDomain` hypothesis.
 
 * `*_never_py`: no non-Sigma exception escapes, in either mode (dynamic type safety of the loaders).
-* `*_collect_never_raises`: collecting mode returns.  For correlation rules (and collections
-  containing them) this is FALSE in the code: `SigmaCorrelationRule.__post_init__` raises its
-  cross-field validation errors in collecting mode as well (known finding D8i) — recorded by the
-  witness theorems `corr_collect_raises_D8i`, `collection_collect_raises_D8i`; the `_partial`
-  theorems exclude exactly the documents the constructor rejects (`postInitFails`), and
-  `corr_collect_raises_iff` characterises the raised error exactly.
-* `*_strict_iff_collect`: strict loading succeeds iff nothing is collected, and the exception strict
-  loading raises is the first collected error.
+* `*_collect_never_raises`: collecting mode returns — for every kind of document.  For correlation
+  rules (and collections containing them) this holds since the repair of finding D8i:
+  `SigmaCorrelationRule.__post_init__(collect_errors)` catches the Sigma error of its cross-field
+  validation (`_validate`) and, in collecting mode, appends it to the error list after the errors
+  `from_dict` collected (`corr_collect_errors` says exactly which list is returned; the former
+  witness document `d8i` is kept: `corr_collect_d8i`, `collection_collect_d8i`, `corr_first_error_d8i`).
+* `*_strict_iff_collect` / `corr_first_error`: strict loading succeeds iff nothing is collected, and
+  the exception strict loading raises is the first collected error.
 
 The model is tied to the implementation by the correspondence sweep of harness/c07.py (strict outcome
 class, collecting outcome, ordered list of collected error classes on every generated document that is
@@ -71,51 +71,63 @@ theorem rule_collect_never_raises (d : Y) : ∃ errs, collect .rule d = .ok errs
 theorem filter_collect_never_raises (d : Y) : ∃ errs, collect .filter d = .ok errs :=
   ⟨_, filter_collect_eq d⟩
 
-/-- Collecting mode raises for a correlation rule exactly when the constructor rejects the document,
-and then with the constructor's error. -/
-theorem corr_collect_raises_iff (d : Y) (e : Exc) : collect .corr d = .error e ↔ corrPost d = .error e := by
-  simp only [collect, load, corr_collect_eq]
-  cases corrPost d <;> simp
+/-- Loading a correlation rule with error collection returns for every YAML value: a rejection by the
+constructor's cross-field validation is collected like every other error. -/
+theorem corr_collect_never_raises (d : Y) : ∃ errs, collect .corr d = .ok errs :=
+  ⟨_, corr_collect_eq d⟩
 
-/-- PARTIAL (the full statement is false, see `corr_collect_raises_D8i`): loading a correlation rule
-with error collection returns for every YAML value the constructor's cross-field validation accepts. -/
-theorem corr_collect_never_raises_partial (d : Y) (h : ¬ postInitFails d) : ∃ errs, collect .corr d = .ok errs := by
-  have h' : corrPost d = .ok () := by simpa [postInitFails] using h
-  exact ⟨corrErrs d, by simp [collect, load, corr_collect_eq, h']⟩
+/-- … and the list it returns is: the errors `from_dict` collects (`corrErrs`), followed by the error of
+the constructor's validation of the values built from the document (placeholders for the parts that
+failed) exactly when that validation fails. -/
+theorem corr_collect_errors (d : Y) :
+    (corrPost d = .ok () → collect .corr d = .ok (corrErrs d)) ∧
+    (∀ c, corrPost d = .error (.sigma c) → collect .corr d = .ok (corrErrs d ++ [c])) ∧
+    (postInitFails d → ∃ c, corrPost d = .error (.sigma c)) := by
+  simp only [collect, load, corr_collect_eq, corrAllErrs, postErrs]
+  refine ⟨fun h => by simp [h, sigmaErrOf], fun c h => by simp [h, sigmaErrOf], fun h => ?_⟩
+  cases hp : corrPost d with
+  | ok u => exact absurd hp h
+  | error e =>
+    cases e with
+    | sigma c => exact ⟨c, rfl⟩
+    | py c => exact absurd (corrPost_noPy d c hp) (by simp)
 
-/-- the example of finding D8i: a `value_count` rule whose condition has no `field` -/
+/-- the example of former finding D8i: a `value_count` rule whose condition has no `field` -/
 def d8i : Y := .map [(.str (S "title"), .str (S "C2")),
   (.str (S "correlation"), .map [(.str (S "type"), .str (S "value_count")), (.str (S "rules"), .list [.str (S "r1")]),
     (.str (S "timespan"), .str (S "1h")), (.str (S "condition"), .map [(.str (S "lt"), .int 3)])])]
 
-/-- DEFECT D8i recorded: collecting mode raises (a Sigma error) on a correlation rule document. -/
-theorem corr_collect_raises_D8i : collect .corr d8i = .error (.sigma .correlationRuleError) := by decide
+/-- the same rule without title and with a condition that is neither a map nor a string -/
+def d8iWithErrors : Y := .map [(.str (S "correlation"), .map [(.str (S "type"), .str (S "value_count")), (.str (S "rules"), .str (S "r1")),
+  (.str (S "timespan"), .str (S "1h")), (.str (S "condition"), .int 5)])]
 
-/-- … also when the document has other errors that were collected before (`title` missing). -/
-theorem corr_collect_raises_D8i_with_errors :
-    collect .corr (.map [(.str (S "correlation"), .map [(.str (S "type"), .str (S "value_count")), (.str (S "rules"), .str (S "r1")),
-      (.str (S "timespan"), .str (S "1h")), (.str (S "condition"), .int 5)])]) = .error (.sigma .correlationRuleError) := by decide
+/-- D8i repaired: collecting mode returns the error of the constructor's validation on the witness document. -/
+theorem corr_collect_d8i : collect .corr d8i = .ok [.correlationRuleError] := by decide
 
-/-- PARTIAL: loading a collection with error collection returns when the constructor of
-`SigmaCorrelationRule` accepts every document of the collection. -/
-theorem collection_collect_never_raises_partial (d : Y) (h : ∀ doc ∈ collDocs d, ¬ postInitFails doc) :
-    ∃ errs, collect .collection d = .ok errs := by
-  have hp : ∀ doc ∈ collDocs d, corrPost doc = .ok () := fun doc hd => by simpa [postInitFails] using h doc hd
-  obtain ⟨st', h1, h2, _⟩ := collLoop_collect (collDocs d) {} inv_init hp
+/-- … and when the document has other errors (`title` missing, condition of a wrong type), the
+validation of the placeholder condition adds its error after the collected ones. -/
+theorem corr_collect_d8i_with_errors :
+    collect .corr d8iWithErrors = .ok [.titleError, .correlationRuleError, .correlationRuleError] ∧
+    strict .corr d8iWithErrors = .error (.sigma .titleError) := by decide
+
+/-- Loading a collection (any list of documents, or one document) with error collection returns. -/
+theorem collection_collect_never_raises (d : Y) : ∃ errs, collect .collection d = .ok errs := by
+  obtain ⟨st', h1, h2, _⟩ := collLoop_collect (collDocs d) {} inv_init
   exact ⟨st'.errs, by simp [collect, load, collFromDicts, h1, collPostInit_ok st' h2]⟩
 
-/-- PARTIAL: with reference resolution, collecting mode returns as well (an unresolvable reference
-is collected) when the constructor of `SigmaCorrelationRule` accepts every document. -/
-theorem collection_refs_collect_never_raises_partial (d : Y) (h : ∀ doc ∈ collDocs d, ¬ postInitFails doc) :
-    ∃ errs, collect .collectionRef d = .ok errs := by
-  have hp : ∀ doc ∈ collDocs d, corrPost doc = .ok () := fun doc hd => by simpa [postInitFails] using h doc hd
-  obtain ⟨st', h1, h2, _⟩ := collLoop_collect (collDocs d) {} inv_init hp
+/-- With reference resolution, collecting mode returns as well (an unresolvable reference is collected). -/
+theorem collection_refs_collect_never_raises (d : Y) : ∃ errs, collect .collectionRef d = .ok errs := by
+  obtain ⟨st', h1, h2, _⟩ := collLoop_collect (collDocs d) {} inv_init
   obtain ⟨more, hm, _⟩ := collRef_collect_tail st'
   simp only [pure_eq] at hm
   exact ⟨st'.errs ++ more, by simp [collect, load, collFromDictsRef, h1, collPostInit_ok st' h2, hm]⟩
 
-/-- DEFECT D8i through a collection. -/
-theorem collection_collect_raises_D8i : collect .collection (.list [d8i]) = .error (.sigma .correlationRuleError) := by decide
+/-- D8i repaired, through a collection (with and without reference resolution; `r1` is not in the collection). -/
+theorem collection_collect_d8i :
+    collect .collection (.list [d8i]) = .ok [.correlationRuleError] ∧
+    strict .collection (.list [d8i]) = .error (.sigma .correlationRuleError) ∧
+    collect .collectionRef (.list [d8i]) = .ok [.correlationRuleError, .ruleNotFoundError] ∧
+    strict .collectionRef (.list [d8i]) = .error (.sigma .correlationRuleError) := by decide
 
 /-! ## strict loading against collecting loading -/
 
@@ -141,51 +153,60 @@ theorem filter_strict_iff_collect (d : Y) :
   obtain ⟨c, rest, h1, h2⟩ := h.2 e he
   exact ⟨c, rest, h1, by rw [h2]⟩
 
-/-- Correlation rules: strict loading succeeds exactly when collecting mode returns an empty error
-list (unconditionally — a rejection by the constructor fails both). -/
+/-- Correlation rules: strict loading succeeds exactly when collecting mode returns an empty error list. -/
 theorem corr_strict_ok_iff (d : Y) : strict .corr d = .ok () ↔ collect .corr d = .ok [] := by
+  have h := strictOf_facts (corrAllErrs d)
   simp only [strict, collect, load, corr_strict_eq, corr_collect_eq]
-  cases hp : corrPost d <;> cases he : corrErrs d <;> simp [strictOf, Except.map]
+  simpa using h.1
 
-/-- PARTIAL (false in general by D8i, see `corr_first_error_fails_D8i`): when the constructor
-accepts the document, the exception strict loading raises is the first collected error. -/
-theorem corr_first_error_partial (d : Y) (h : ¬ postInitFails d) :
+/-- Correlation rules: the exception strict loading raises is the first collected error — also when
+it is the error of the constructor's cross-field validation (then it is the only collected error). -/
+theorem corr_first_error (d : Y) :
     ∀ e, strict .corr d = .error e → ∃ c rest, e = .sigma c ∧ collect .corr d = .ok (c :: rest) := by
-  have h' : corrPost d = .ok () := by simpa [postInitFails] using h
-  intro e
-  simp only [strict, collect, load, corr_strict_eq, corr_collect_eq, h']
-  cases he : corrErrs d <;> simp [strictOf, Except.map]
-  intro h1; exact h1.symm
+  have h := strictOf_facts (corrAllErrs d)
+  simp only [strict, collect, load, corr_strict_eq, corr_collect_eq]
+  intro e he
+  obtain ⟨c, rest, h1, h2⟩ := h.2 e he
+  exact ⟨c, rest, h1, by rw [h2]⟩
 
-/-- In general: what strict loading raises is the first collected error or the constructor's error. -/
+/-- Correlation rules, both parts together (the form of `rule_strict_iff_collect`). -/
+theorem corr_strict_iff_collect (d : Y) :
+    (strict .corr d = .ok () ↔ collect .corr d = .ok []) ∧
+    ∀ e, strict .corr d = .error e → ∃ c rest, e = .sigma c ∧ collect .corr d = .ok (c :: rest) :=
+  ⟨corr_strict_ok_iff d, corr_first_error d⟩
+
+/-- Where the error strict loading raises comes from: it is the first error `from_dict` collects, or —
+when there is none — the error of the constructor's validation. -/
 theorem corr_strict_error (d : Y) (e : Exc) (h : strict .corr d = .error e) :
     (∃ c rest, e = .sigma c ∧ corrErrs d = c :: rest) ∨ (corrErrs d = [] ∧ corrPost d = .error e) := by
-  simp only [strict, load, corr_strict_eq] at h
+  simp only [strict, load, corr_strict_eq, corrAllErrs] at h
   cases he : corrErrs d with
   | nil =>
     right
-    simp only [he, strictOf, ok_bind] at h
-    cases hp : corrPost d <;> simp [hp, Except.map] at h
-    exact ⟨rfl, by rw [h]⟩
+    simp only [he, List.nil_append, postErrs] at h
+    cases hp : corrPost d with
+    | ok u => simp [hp, sigmaErrOf, strictOf, Except.map] at h
+    | error e' =>
+      cases e' with
+      | sigma c => simp [hp, sigmaErrOf, strictOf, Except.map] at h; exact ⟨rfl, by rw [h]⟩
+      | py c => exact absurd (corrPost_noPy d c hp) (by simp)
   | cons c rest =>
     left
     simp [he, strictOf, Except.map] at h
     exact ⟨c, rest, h.symm, rfl⟩
 
-/-- DEFECT D8i recorded: strict loading raises an error that collecting mode does not return. -/
-theorem corr_first_error_fails_D8i :
-    strict .corr d8i = .error (.sigma .correlationRuleError) ∧ ¬ ∃ errs, collect .corr d8i = .ok errs := by
-  refine ⟨by decide, ?_⟩
-  rw [corr_collect_raises_D8i]; simp
+/-- D8i repaired: on the witness document strict loading raises the error collecting mode returns. -/
+theorem corr_first_error_d8i :
+    strict .corr d8i = .error (.sigma .correlationRuleError) ∧ collect .corr d8i = .ok [.correlationRuleError] :=
+  ⟨by decide, corr_collect_d8i⟩
 
-/-- PARTIAL: collections whose documents the correlation constructor accepts — strict loading
-succeeds exactly when nothing is collected, and the exception it raises is the first collected error
-(errors of the documents in document order, merged with the collection's own errors). -/
-theorem collection_strict_iff_collect_partial (d : Y) (h : ∀ doc ∈ collDocs d, ¬ postInitFails doc) :
+/-- Collections (any list of documents): strict loading succeeds exactly when nothing is collected,
+and the exception it raises is the first collected error (errors of the documents in document order,
+merged with the collection's own errors). -/
+theorem collection_strict_iff_collect (d : Y) :
     (strict .collection d = .ok () ↔ collect .collection d = .ok []) ∧
     ∀ e, strict .collection d = .error e → ∃ c rest, e = .sigma c ∧ collect .collection d = .ok (c :: rest) := by
-  have hp : ∀ doc ∈ collDocs d, corrPost doc = .ok () := fun doc hd => by simpa [postInitFails] using h doc hd
-  obtain ⟨hm1, hm2⟩ := collLoop_modes (collDocs d) {} inv_init hp
+  obtain ⟨hm1, hm2⟩ := collLoop_modes (collDocs d) {} inv_init
   obtain ⟨hn1, hn2⟩ := collLoop_noPy false (collDocs d) {} inv_init
   simp only [strict, collect, load, collFromDicts]
   cases hl : collLoop false {} (collDocs d) with
@@ -204,13 +225,12 @@ theorem collection_strict_iff_collect_partial (d : Y) (h : ∀ doc ∈ collDocs 
       have : st''.errs = c :: rest := by simpa using h3
       simp [this]
 
-/-- PARTIAL: the same with reference resolution — strict loading raises `SigmaRuleNotFoundError`
-for an unresolvable reference exactly when collecting mode returns it as (then only) error. -/
-theorem collection_refs_strict_iff_collect_partial (d : Y) (h : ∀ doc ∈ collDocs d, ¬ postInitFails doc) :
+/-- The same with reference resolution — strict loading raises `SigmaRuleNotFoundError` for an
+unresolvable reference exactly when collecting mode returns it as (then only) error. -/
+theorem collection_refs_strict_iff_collect (d : Y) :
     (strict .collectionRef d = .ok () ↔ collect .collectionRef d = .ok []) ∧
     ∀ e, strict .collectionRef d = .error e → ∃ c rest, e = .sigma c ∧ collect .collectionRef d = .ok (c :: rest) := by
-  have hp : ∀ doc ∈ collDocs d, corrPost doc = .ok () := fun doc hd => by simpa [postInitFails] using h doc hd
-  obtain ⟨hm1, hm2⟩ := collLoop_modes (collDocs d) {} inv_init hp
+  obtain ⟨hm1, hm2⟩ := collLoop_modes (collDocs d) {} inv_init
   obtain ⟨hn1, hn2⟩ := collLoop_noPy false (collDocs d) {} inv_init
   simp only [strict, collect, load, collFromDictsRef]
   cases hl : collLoop false {} (collDocs d) with
@@ -319,7 +339,6 @@ example : collect .collection (.list [
     .map [(.str (S "logsource"), .map [(.str (S "category"), .str (S "c"))]),
           (.str (S "detection"), .map [(.str (S "s"), .map [(.str (S "f"), .int 1)]), (.str (S "condition"), .str (S "s"))])],
     .map [(.str (S "action"), .str (S "bogus"))], .int 5]) = .ok [.collectionError, .collectionError] := by decide
-example : ∀ doc ∈ collDocs (.list [baseRule, baseCorr, baseFilter]), ¬ postInitFails doc := by decide
 example : strict .collection (.list [baseRule, baseCorr, baseFilter]) = .ok () := by decide
 
 /-- references by name and by identifier (any UUID spelling) resolve; a missing one is raised strictly
